@@ -43,19 +43,29 @@ class _Ctx:
     stmts: list[Stmt]
     is_ctx_expr: bool
     in_while_cond: bool = False
+    conditional: bool = False
+    """inside an expression that is not evaluated on every run of its statement:
+    an arm of a conditional expression, a later operand of `and` / `or`, the
+    element of a comprehension"""
 
     @staticmethod
     def default():
         return _Ctx(stmts=[], is_ctx_expr=False)
 
 
-def _refuses(e: Call, *, in_while_cond: bool) -> str | None:
+def _refuses(e: Call, *, in_while_cond: bool, conditional: bool = False) -> str | None:
     """Why the call *e* cannot be inlined, or `None` where it can.
 
     Decided from the call and the callee alone, so a listing and the rewrite
     agree and neither spends an index on a call it will not inline.
     """
     assert isinstance(e.fn, Function)
+    if conditional:
+        return (
+            f'inlining `{e.fn.name}` here would splice its body before the '
+            f'statement, where it runs unconditionally (once), while this '
+            f'operand is evaluated conditionally (or once per element)'
+        )
     if in_while_cond:
         return (
             f'inlining `{e.fn.name}` here would splice its body before the '
@@ -124,7 +134,7 @@ class _FuncInline(SiteRewriter):
             return super()._visit_call(e, ctx)
 
         # a refusal is not a site, so it takes no index
-        reason = _refuses(e, in_while_cond=ctx.in_while_cond)
+        reason = _refuses(e, in_while_cond=ctx.in_while_cond, conditional=ctx.conditional)
         if reason is not None:
             self.refused.append((e, reason))
             if self._named_by_cursor(e):
@@ -221,6 +231,32 @@ class _FuncInline(SiteRewriter):
         # return the bound value
         return Var(t, e.loc)
 
+
+    def _conditionally(self, ctx: _Ctx) -> _Ctx:
+        return _Ctx(ctx.stmts, ctx.is_ctx_expr, in_while_cond=ctx.in_while_cond, conditional=True)
+
+    def _visit_if_expr(self, e: IfExpr, ctx: _Ctx):
+        cond = self._visit_expr(e.cond, ctx)
+        ift = self._visit_expr(e.ift, self._conditionally(ctx))
+        iff = self._visit_expr(e.iff, self._conditionally(ctx))
+        return IfExpr(cond, ift, iff, e.loc)
+
+    def _visit_naryop(self, e: NaryOp, ctx: _Ctx):
+        if isinstance(e, And | Or) and e.args:
+            # `and` / `or` short-circuit: only the first operand always runs
+            args = [self._visit_expr(e.args[0], ctx)]
+            args += [self._visit_expr(arg, self._conditionally(ctx)) for arg in e.args[1:]]
+            return type(e)(args, e.loc)
+        return super()._visit_naryop(e, ctx)
+
+    def _visit_list_comp(self, e: ListComp, ctx: _Ctx):
+        # the first iterable is evaluated once, with the statement; the rest of the
+        # comprehension runs once per element and sees the comprehension's variables
+        inner = self._conditionally(ctx)
+        targets = [self._visit_binding(t, ctx) for t in e.targets]
+        iterables = [self._visit_expr(it, ctx if i == 0 else inner) for i, it in enumerate(e.iterables)]
+        elt = self._visit_expr(e.elt, inner)
+        return ListComp(targets, iterables, elt, e.loc)
 
     def _visit_while(self, stmt: WhileStmt, ctx: _Ctx):
         cond = self._visit_expr(stmt.cond, _Ctx(ctx.stmts, False, in_while_cond=True))
